@@ -1,4 +1,5 @@
 import SplinkVerif.Drv.Util
+import SplinkVerif.Drv.Arith
 import SplinkVerif.Model.MultiThreshold
 namespace SplinkVerif.Drv
 open Lean SplinkVerif
@@ -14,7 +15,11 @@ def handleMulti (j : Json) : Except String Json := do
     if a.size < 3 then throw "edge [l,r,bits] expected"
     pure ((← a[0]!.getNat?), (← a[1]!.getNat?), (← floatOfBits a[2]!))
   let ts0 ← tsJ.toList.mapM floatOfBits
-  let ts := if isW then ts0.map CC.weightToProb else ts0
+  -- through the *translated* `threshold_args_to_match_prob_list` (Generated/Arith.lean): weights -> probabilities, sorted
+  let ts ← match (if isW then Gen.threshold_args_to_match_prob_list none (some ts0)
+                  else Gen.threshold_args_to_match_prob_list (some ts0) none) with
+    | some (some ts) => pure ts
+    | _ => throw "threshold_args_to_match_prob_list raises or returns None"
   let ge := fun (a b : Float) => decide (a ≥ b)
   let res := MultiThreshold.multi ge 1.0 n edges ts
   let trs := MultiThreshold.multiTraces ge 1.0 n edges ts
